@@ -81,7 +81,15 @@ func (pc *propCheck) replayLibrary(o *Obligation, con *Contract, model string) r
 	if _, err := os.Stat(harness); err != nil {
 		return replayResult{}
 	}
-	key := pkg + "|" + con.FuncName
+	// scenarios that fail on the unchanged tree (recorded known findings) are only run when the
+	// obligation replayed is that finding, so that they are not attributed to anything else
+	knownEnv := ""
+	for _, k := range loadKnown().Findings {
+		if k.Property == pc.ID && k.Status == "open" && k.Obligation == o.Name {
+			knownEnv = "1"
+		}
+	}
+	key := pkg + "|" + con.FuncName + "|" + knownEnv
 	if r, ok := pc.replayCache[key]; ok {
 		return r
 	}
@@ -96,7 +104,7 @@ func (pc *propCheck) replayLibrary(o *Obligation, con *Contract, model string) r
 	args := []string{"test", "-overlay", ovf, "-vet=off", "-count=1", "-v", "-timeout", "60s", "-run", "^TestGvcReplay$", "./" + rel}
 	cmd := exec.CommandContext(ctx, "go", args...)
 	cmd.Dir = repoDir
-	cmd.Env = append(os.Environ(), "GVC_REPLAY_FUNC="+con.FuncName, "GVC_REPLAY_VALUES="+modelValues(model), "GOFLAGS=-mod=mod", "GOPROXY=off", "GOSUMDB=off", "GOTOOLCHAIN=local")
+	cmd.Env = append(os.Environ(), "GVC_REPLAY_FUNC="+con.FuncName, "GVC_REPLAY_VALUES="+modelValues(model), "GVC_REPLAY_KNOWN="+knownEnv, "GOFLAGS=-mod=mod", "GOPROXY=off", "GOSUMDB=off", "GOTOOLCHAIN=local")
 	out, _ := cmd.CombinedOutput()
 	r := replayResult{Tried: true, Cmd: "GVC_REPLAY_FUNC='" + con.FuncName + "' go " + strings.Join(args, " "), Output: string(out)}
 	for _, ln := range strings.Split(string(out), "\n") {
